@@ -152,6 +152,19 @@ theorem binding_visible_in_inner (frames : Array (Frame N)) (inner outer : Nat) 
     lookupIn frames (fuel + 1) inner name = lookupIn frames fuel outer name := by
   simp [lookupIn, hfi, hns, hpar]
 
+/-- **A function may call itself through the variable it is bound to**: once `name` is bound in the scope
+    `env` (to the function value, whose captured scope is `env` itself), every scope nested directly in `env`
+    that does not shadow `name` — in particular the scope a call of that function creates for its parameters
+    (`closure_call`: a new frame under the definition scope) — resolves `name` to that same value. -/
+theorem function_sees_itself (s : Store N) (env : Nat) (name : String) (fv : Option (Val N))
+    (fr : Frame N) (hfr : s.frames[env]? = some fr) (s' : Store N)
+    (hb : bindVar env name fv s = .ok ((), s'))
+    (inner : Nat) (fri : Frame N) (hfi : s'.frames[inner]? = some fri) (hpar : fri.parent = some env)
+    (hns : fri.syms.find? (fun p => p.1 == name) = none) (fuel : Nat) :
+    lookupIn s'.frames (fuel + 2) inner name = some fv := by
+  rw [binding_visible_in_inner s'.frames inner env fri hfi hpar name hns (fuel + 1)]
+  exact binding_visible_later s env name fv fr hfr s' hb fuel
+
 section
 variable [NumSys N]
 
